@@ -176,6 +176,9 @@ func (e *escaper) escapeAction(c context, n *parse.ActionNode) context {
 	}
 	e.editActionNode(n, s)
 	if c.state == stateAttr {
+		if c.attr.value == "" && !c.attr.dynamic {
+			c.attr.dynamicStart = true
+		}
 		c.attr.dynamic = true
 	}
 	return c
@@ -336,6 +339,7 @@ func join(a, b context, node parse.Node, nodeName string) context {
 		a.attr.ambiguousValue = true
 	}
 	a.attr.dynamic = a.attr.dynamic || b.attr.dynamic
+	a.attr.dynamicStart = a.attr.dynamicStart || b.attr.dynamicStart
 
 	if a.eq(b) {
 		return a
@@ -724,6 +728,14 @@ func contextAfterText(c context, s []byte) (context, int) {
 			return context{
 				state: stateError,
 				err:   errorf(ErrBadHTML, nil, 0, "%q in unquoted attr: %q", s[j:j+1], s[:i]),
+			}, len(s)
+		}
+	}
+	if c.state == stateAttr && c.attr.dynamic && i > 0 {
+		if err := validateTextAfterAction(c, string(s[:i])); err != nil {
+			return context{
+				state: stateError,
+				err:   errorf(ErrBadHTML, nil, 0, "%s", err),
 			}, len(s)
 		}
 	}
